@@ -192,9 +192,60 @@ def run(ctx: core.Ctx) -> int:
         R = Layout((("SORT", ("READ", "k"), "natural"),))
         ctx.oblige("LAY-KEY", "py/formak/python.py:SensorModel.__init__", f"SensorModel.readings : {r!r}", isinstance(r, SeqV) and r.layout == R,
                    file="py/formak/python.py", func="SensorModel.__init__", construct="readings", msg=f"python SensorModel.readings is {r!r}; required {R}")
+    # every layout the compiled Python filter holds (blocks, name lists, named classes, arrays) is ordered
+    ctx.rule("LAY-ORD", "no declaration-order / hash-order sequence is held by the compiled Python filter (argument lists, Jacobian rows / columns, named classes)")
+    scf = scenarios.PyEKF(ctx, prog, run=())
+    seen_ids, unordered, nlay = set(), [], 0
+
+    def lays_of(v):
+        if isinstance(v, SeqV):
+            return [v.layout]
+        if isinstance(v, NCls):
+            return [v.layout]
+        if isinstance(v, ArrV):
+            return [x for x in (v.rows, v.cols) if isinstance(x, Layout)]
+        if isinstance(v, BlockV):
+            out = [v.formals] if isinstance(v.formals, Layout) else []
+            if isinstance(v.outputs, Layout):
+                out.append(v.outputs)
+            if isinstance(v.outputs, FlatV):
+                out += [v.outputs.rows, v.outputs.cols]
+            return out
+        return []
+
+    def walk_obj(o, path):
+        nonlocal nlay
+        if id(o) in seen_ids:
+            return
+        seen_ids.add(id(o))
+        if isinstance(o, ObjV):
+            for k, v in o.attrs.items():
+                walk_obj(v, f"{path}.{k}" if k != "__fam__" else f"{path}[k]")
+        elif isinstance(o, FamV):
+            walk_obj(o.value, path + "[k]")
+        else:
+            for l in lays_of(o):
+                nlay += 1
+                if not l.ordered():
+                    unordered.append((path, l))
+    walk_obj(scf.ekf, "ExtendedKalmanFilter")
+    ctx.floor("LAY-ORD", nlay, 20, "layouts held by the compiled Python filter")
+    ctx.oblige("LAY-ORD", "py/formak/python.py:ExtendedKalmanFilter", f"{nlay} layouts, {len(unordered)} unordered", not unordered, file="py/formak/python.py",
+               func="ExtendedKalmanFilter.__init__", construct="unordered layouts:" + ";".join(p for p, _ in unordered),
+               msg="the compiled Python filter's layout depends on declaration / hash order: " + "; ".join(f"{p} : {l}" for p, l in unordered))
     # python.py iterations that feed layouts: unordered sources only keyed
     n = sort_keys(ctx, dict(GEN_MODULES, python="py/formak/python.py"))
     ctx.floor("SORT-KEY", n, 30, "sorted() sites classified")
     gen_pure(ctx)
     fmt_rule(ctx)
+    from .. import tmprules as _tmp
+    ctx.rule("TMP-4", "CSE temporaries are named from a stream created per call (names do not drift between emissions)")
+    ctx.rule("TRUST-SIG", "trusted sympy call signatures")
+    for _cls, _fn, _rel, _mod in (("BasicBlock", "compile", "py/formak/cpp.py", "cpp"), ("BasicBlock", "_compile", "py/formak/python.py", "python")):
+        _c = core.find_class(prog.modules[_mod], _cls)
+        _f = core.find_func(_c, _fn) if _c else None
+        if _f is None:
+            ctx.error(f"anchor missing: {_mod}.{_cls}.{_fn}")
+        else:
+            _tmp.trust_sig(ctx, _rel, f"{_cls}.{_fn}", _f)
     return core.finish(ctx, explanation="order-taint over the E2 iteration inventory of the generator, sort-key totality, purity of generator modules", **META)
